@@ -154,7 +154,7 @@ func (x *Exec) appendModel(fr *frame, s *State, dst, src Value, pos token.Pos) V
 			obj := Ite(inPlace, oldObj, copied)
 			for e := int64(0); e < nNew; e++ {
 				for l, ls := range leafSorts {
-					if ls != k {
+					if ls != k || ls == "" {
 						continue
 					}
 					dstOff := BVOp("bvadd", roff, BVOp("bvadd", oldLeaves, BVLitI(64, e*st+int64(l))))
